@@ -9,6 +9,7 @@
 Require Import Zrs.lib.RsPrelude Zrs.gen.RefTables Zrs.gen.Generated Zrs.model.BitIO Zrs.model.FseDec.
 Require Import Zrs.proofs.C12_Fse.
 Require Import Zrs.model.BitIO Zrs.model.BitStream Zrs.model.SeqEnc Zrs.model.BlockDec Zrs.proofs.C12_Stream Zrs.proofs.C12_SeqStream Zrs.proofs.C12_Predef.
+Require Import Zrs.model.FseEnc Zrs.proofs.C12_Desc.
 Open Scope Z_scope.
 
 Theorem C12_ll_predefined_eq_ref :
@@ -81,6 +82,30 @@ Theorem C12_predefined_sequences_roundtrip : forall qs,
     rbr_bits_remaining rf = 0.
 Proof. exact predefined_sequences_roundtrip. Qed.
 
+(** table descriptions: what the compressor's [write_table] emits for a normalised distribution (every probability
+    >= -1, total 2^accuracy_log, last entry non-zero) is read by the decoder's [read_probabilities] back into exactly
+    that distribution and accuracy log, consuming exactly the bytes written -- for every such distribution and whatever
+    follows the description (inside a frame at least one byte always does).  The writer model is compared byte for
+    byte with the real writer on every run, and every distribution the real normaliser produces in the run is
+    checked to satisfy [dist_okb]. *)
+Theorem C12_table_description_roundtrip : forall acc_log probs max_symbol max_log rest,
+  5 <= acc_log <= 20 -> acc_log <= max_log -> dist_ok acc_log probs ->
+  Z.of_nat (length probs) <= max_symbol + 1 -> rest <> [] ->
+  exists d, desc_bytes acc_log probs = Some d /\
+    read_probabilities max_symbol (d ++ rest) max_log = ROk (acc_log, probs, Z.of_nat (length d)).
+Proof. exact description_roundtrip. Qed.
+
+Theorem C12_normalised_is_decidable : forall acc_log probs, dist_okb acc_log probs = true -> dist_ok acc_log probs.
+Proof. exact dist_okb_ok. Qed.
+
+Example C12_predefined_distributions_are_normalised :
+  dist_okb LL_DEFAULT_ACC_LOG LITERALS_LENGTH_DEFAULT_DISTRIBUTION = true /\
+  dist_okb ML_DEFAULT_ACC_LOG MATCH_LENGTH_DEFAULT_DISTRIBUTION = true /\
+  dist_okb OF_DEFAULT_ACC_LOG OFFSET_DEFAULT_DISTRIBUTION = true.
+Proof. vm_compute. repeat split. Qed.
+
+Print Assumptions C12_table_description_roundtrip.
+Print Assumptions C12_normalised_is_decidable.
 Print Assumptions C12_predefined_sequences_roundtrip.
 Print Assumptions C12_backward_stream_inverse.
 Print Assumptions C12_sequences_stream_roundtrip.
